@@ -32,7 +32,7 @@ done
 {
   echo "# Seeded changes vs. checks"
   echo
-  echo "Produced by \`tools/seeded_matrix.sh\` on $(date -u +%Y-%m-%dT%H:%MZ), /repo at $(git -C /repo rev-parse --short HEAD), /verif at $(git rev-parse --short HEAD)$(git diff --quiet || echo +dirty)."
+  echo "Produced by \`tools/seeded_matrix.sh\` on $(date -u +%Y-%m-%dT%H:%MZ), /repo at $(git -C "${COAPSIM_REPO:-/repo}" rev-parse --short HEAD), /verif at $(git rev-parse --short HEAD)$(git diff --quiet || echo +dirty)."
   echo "Every change was applied to /repo (\`git apply\`), the quick check of the targeted property was run, and /repo was restored."
   echo "Unexpected results: $bad."
   echo
